@@ -42,6 +42,7 @@ def oooWfOp : Op → Bool
   | .fallback _ => false
   | .ooo _ _ _ _ => false
   | .sub _ => false
+  | .finish => false
 def oooWfOps : List Op → Bool
   | [] => true
   | .nextId :: .fallback _ :: .ooo _ true body _ :: os => oooWfOps body && oooWfOps os
@@ -191,6 +192,9 @@ theorem OooWf_of_bool : ∀ (n : Nat) (ops : List Op), opsSize ops ≤ n → ooo
     | .fallback _ :: os, h, hw => simp [oooWfOps, oooWfOp] at hw
     | .ooo _ _ _ _ :: os, h, hw => simp [oooWfOps, oooWfOp] at hw
     | .sub _ :: os, h, hw => simp [oooWfOps, oooWfOp] at hw
+    | .finish :: os, h, hw => simp [oooWfOps, oooWfOp] at hw
+    | .nextId :: .finish :: os, h, hw => simp [oooWfOps, oooWfOp] at hw
+    | .nextId :: .fallback _ :: .finish :: os, h, hw => simp [oooWfOps, oooWfOp] at hw
 
 theorem OooWf.append {a b : List Op} (ha : OooWf a) (hb : OooWf b) : OooWf (a ++ b) := by
   induction ha with
@@ -271,5 +275,140 @@ theorem compile_oooWf : ∀ (n : Nat),
           by simp [compile, oooDocOps, oooDocOp, viewDoc, this.2]⟩
       | eb vs => cases c <;> simp [viewOk] at hok
     exact ⟨hV, fun c vs h hok => hL c vs h hok hV⟩
+
+
+/-! ### marker ids (`next_id`, the `push(0)` of a sub-builder) -/
+
+def oooIds : List Chunk → List Id
+  | [] => []
+  | .ooo p :: cs => p.id :: oooIds cs
+  | _ :: cs => oooIds cs
+
+theorem oooIds_append (a b : List Chunk) : oooIds (a ++ b) = oooIds a ++ oooIds b := by
+  induction a with
+  | nil => rfl
+  | cons c cs ih => cases c <;> simp [oooIds, ih]
+
+theorem bumpLast_snoc (pre : List Nat) (k : Nat) : Builder.bumpLast (pre ++ [k]) = pre ++ [k + 1] := by
+  induction pre with
+  | nil => rfl
+  | cons a pre ih =>
+    cases pre with
+    | nil => rfl
+    | cons b pre => simp only [List.cons_append] at ih ⊢; rw [Builder.bumpLast, ih]
+
+/-- the ids used in one builder: all of the form `pre ++ [j]`, `j` at most the current counter, pairwise distinct -/
+def IdsOk (pre : List Nat) (k : Nat) (b : Builder) : Prop :=
+  b.id = some (pre ++ [k]) ∧ (∀ i ∈ oooIds b.chunks, ∃ j, 1 ≤ j ∧ j ≤ k ∧ i = some (pre ++ [j])) ∧ (oooIds b.chunks).Nodup
+
+theorem exec_ids {ops : List Op} (h : OooWf ops) (env : Env) : ∀ (b : Builder) (pre : List Nat) (k : Nat),
+    IdsOk pre k b → ∃ k', k ≤ k' ∧ IdsOk pre k' (execOps env ops b) := by
+  induction h with
+  | nil => intro b pre k hb; exact ⟨k, Nat.le_refl _, hb⟩
+  | sync s _ ih =>
+    intro b pre k hb
+    simp only [execOps, execOp]
+    exact ih _ pre k (by simpa [IdsOk, Builder.pushSync] using hb)
+  | nextId _ ih =>
+    intro b pre k hb
+    simp only [execOps, execOp]
+    obtain ⟨k', hk', h'⟩ := ih b.nextId pre (k + 1) (by
+      refine ⟨by simp [Builder.nextId, hb.1, bumpLast_snoc], ?_, by simpa [Builder.nextId] using hb.2.2⟩
+      intro i hi
+      obtain ⟨j, hj1, hj, rfl⟩ := hb.2.1 i (by simpa [Builder.nextId] using hi)
+      exact ⟨j, hj1, by omega, rfl⟩)
+    exact ⟨k', by omega, h'⟩
+  | triple s fut nonce _ _ _ ih =>
+    intro b pre k hb
+    simp only [execOps, execOp]
+    have hid : (b.nextId.pushFallback s).id = some (pre ++ [k + 1]) := by
+      simp [Builder.pushFallback, (phi_writeMarker _ _).2, Builder.nextId, hb.1, bumpLast_snoc]
+    have hch : (b.nextId.pushFallback s).chunks = b.chunks := by
+      simp [Builder.pushFallback, (phi_writeMarker _ _).1, Builder.nextId]
+    obtain ⟨k', hk', h'⟩ := ih ((b.nextId.pushFallback s).pushOoo
+        { fut := fut, born := env.now, id := (b.nextId.pushFallback s).id, replace := true, body := _, nonce := nonce })
+      pre (k + 1) (by
+        refine ⟨by simpa [Builder.pushOoo] using hid, ?_, ?_⟩
+        · intro i hi
+          simp only [Builder.pushOoo, hch, oooIds_append, oooIds, List.mem_append, List.mem_singleton] at hi
+          rcases hi with hi | hi
+          · obtain ⟨j, hj1, hj, rfl⟩ := hb.2.1 i hi
+            exact ⟨j, hj1, by omega, rfl⟩
+          · exact ⟨k + 1, by omega, Nat.le_refl _, by rw [hi, hid]⟩
+        · simp only [Builder.pushOoo, hch, oooIds_append, oooIds, hid]
+          rw [List.nodup_append]
+          refine ⟨hb.2.2, by simp, ?_⟩
+          intro a ha b' hb'
+          simp at hb'
+          subst hb'
+          obtain ⟨j, _, hj, rfl⟩ := hb.2.1 a ha
+          intro he
+          have := List.append_inj_right' (Option.some.inj he) rfl
+          simp at this
+          omega)
+    exact ⟨k', by omega, h'⟩
+  | ite fut _ _ _ _ iht ihe ihos =>
+    intro b pre k hb
+    simp only [execOps, execOp]
+    split
+    · obtain ⟨k1, hk1, h1⟩ := iht b pre k hb
+      obtain ⟨k2, hk2, h2⟩ := ihos _ pre k1 h1
+      exact ⟨k2, by omega, h2⟩
+    · obtain ⟨k1, hk1, h1⟩ := ihe b pre k hb
+      obtain ⟨k2, hk2, h2⟩ := ihos _ pre k1 h1
+      exact ⟨k2, by omega, h2⟩
+
+
+theorem oooIds_cons (c : Chunk) (l : List Chunk) : oooIds (c :: l) = oooIds [c] ++ oooIds l :=
+  oooIds_append [c] l
+
+theorem oooIds_finishChunks : ∀ (cs : List Chunk) (rest : Str), oooIds (Builder.finishChunks cs rest) = oooIds cs
+  | [], _ => rfl
+  | [c], rest => by cases c <;> rfl
+  | c :: c' :: l, rest => by
+    rw [Builder.finishChunks, oooIds_cons, oooIds_finishChunks (c' :: l) rest, ← oooIds_cons]
+
+theorem oooIds_finish_take (b : Builder) : oooIds b.finish.takeChunks = oooIds b.chunks := by
+  unfold Builder.finish Builder.takeChunks Builder.flushed
+  split
+  · rename_i h; simp [h]
+  · simp [oooIds_finishChunks]
+
+/-- the chunks of a resolved out-of-order future carry ids that extend the future's own id by one component -/
+theorem resolveOoo_ids (env : Env) (p : PendOoo) (I : List Nat) (hI : p.id = some I) (hw : OooWf p.body) :
+    (resolveOoo env p).id = piecesStr I ∧
+    (∀ i ∈ oooIds (resolveOoo env p).chunks, ∃ j, 1 ≤ j ∧ i = some (I ++ [j])) ∧
+    (oooIds (resolveOoo env p).chunks).Nodup := by
+  unfold resolveOoo
+  dsimp only
+  refine ⟨by simp [Builder.new, hI, idStr], ?_⟩
+  split
+  · obtain ⟨k', _, h'⟩ := exec_ids hw env
+      ({ (Builder.new p.id) with id := (Builder.new p.id).id.map (· ++ [0]) } : Builder) I 0
+      ⟨by simp [Builder.new, hI], by simp [Builder.new, oooIds], by simp [Builder.new, oooIds]⟩
+    rw [oooIds_finish_take]
+    refine ⟨?_, h'.2.2⟩
+    intro i hi
+    obtain ⟨j, hj1, _, rfl⟩ := h'.2.1 i hi
+    exact ⟨j, hj1, rfl⟩
+  · rw [oooIds_finish_take]
+    simp [Builder.new, oooIds]
+
+theorem startStream_ids (prog : List Op) (hw : OooWf prog) (done0 : List FId) :
+    (∀ i ∈ oooIds (startStream true done0 prog).b.chunks, ∃ j, 1 ≤ j ∧ i = some [j]) ∧
+    (oooIds (startStream true done0 prog).b.chunks).Nodup := by
+  unfold startStream
+  dsimp only
+  obtain ⟨k', _, h'⟩ := exec_ids hw { done := done0, now := 0 } (Builder.new (some [0])) [] 0
+    ⟨by simp [Builder.new], by simp [Builder.new, oooIds], by simp [Builder.new, oooIds]⟩
+  have hf : ∀ b : Builder, oooIds b.finish.chunks = oooIds b.chunks := by
+    intro b; unfold Builder.finish; split
+    · rfl
+    · simp [oooIds_finishChunks]
+  simp only [if_true, hf]
+  refine ⟨?_, h'.2.2⟩
+  intro i hi
+  obtain ⟨j, hj1, _, rfl⟩ := h'.2.1 i hi
+  exact ⟨j, hj1, by simp⟩
 
 end Leptos.Stream
